@@ -68,6 +68,9 @@ static void prepare(pl::Instance &I, int prior, unsigned devid) {
     I.create(44100); OPN2_MIDIPlayer *d = I.dev;
     opn2_setNumChips(d, 1); opn2_openBankData(d, g_bank.data(), (long)g_bank.size());
     opn2_setDeviceIdentifier(d, devid);
+    // priors 6..9: the device id was set before a call that re-initialises MIDI state (it is an instance setting and stays)
+    if(prior == 6) opn2_reset(d); else if(prior == 7) { static const uint8_t smf[] = {'M','T','h','d',0,0,0,6,0,0,0,1,0,96,'M','T','r','k',0,0,0,8,0,0x90,60,100,96,0x80,60,0}; opn2_openData(d, smf, sizeof smf); }
+    else if(prior == 8) opn2_switchEmulator(d, OPNMIDI_EMU_GENS); else if(prior == 9) { opn2_rt_resetState(d); opn2_panic(d); opn2_setNumChips(d, 2); }
     int mode = prior % 3;
     Bytes m = mode == 0 ? msg(0, devid) : mode == 1 ? msg(3, devid) : msg(6, devid);
     opn2_rt_systemExclusive(d, m.data(), m.size());
@@ -79,7 +82,7 @@ static void prepare(pl::Instance &I, int prior, unsigned devid) {
         I.generate_ms(40);
     }
 }
-static const int NPRIOR = 6;
+static const int NPRIOR = 10;
 
 static void snapshot(pl::Instance &I, std::string &out) { vu::Ser s; pl::ser_player(I, s); s.u64(I.tap.nwrites); for(auto &c : I.tap.chips) s.raw(c.regs, sizeof c.regs); out.swap(s.s); }
 
@@ -142,7 +145,7 @@ int main(int argc, char **argv) {
     pl::install_hooks(true);
     { pl::BankSpec m; pl::InsSpec s; s.id = 1; for(int i = 0; i < 128; i++) m.ins[i] = s; pl::BankSpec p; p.percussive = true; pl::InsSpec dd; dd.id = 2; dd.drum_key = 40; for(int i = 27; i < 88; i++) p.ins[i] = dd; g_bank = pl::make_wopn({m, p}); }
     std::vector<en::Family> fams;
-    { en::Family F; F.name = "canonical"; F.count = NMSG * NPRIOR * 16; F.chunk = 16; F.describe = "the 7 recognised messages x 6 prior states (GM/GS/XG x {default, non-default controllers + sounding + pedal-held + drum note}) x device ids 0..15";
+    { en::Family F; F.name = "canonical"; F.count = NMSG * NPRIOR * 16; F.chunk = 16; F.describe = "the 7 recognised messages x 10 prior states (GM/GS/XG x {default, non-default controllers + sounding + pedal-held + drum note}; device id set before {opn2_reset, a song load, an emulator switch, reset-state + panic + chip count}) x device ids 0..15";
       F.run = [](uint64_t i, en::CaseOut &o) { int w = (int)(i % NMSG), pr = (int)((i / NMSG) % NPRIOR); unsigned id = (unsigned)(i / NMSG / NPRIOR); Bytes m = msg(w, id); if(i % 97 == 0) o.sample = vu::hex(m) + " id " + std::to_string(id); run_case(m, pr, id, o); };
       fams.push_back(F); }
     { uint64_t tot = 0; for(int w = 0; w < NMSG; w++) tot += msg(w, 0).size();
